@@ -8,6 +8,7 @@
    * stack memory edge cases: empty memory, memory whose end wraps past 2^64, memory ending at the very top. *)
 From Coq Require Import Lia ZArith List Bool.
 From RM Require Import C08.Model C05.Model C05.ModelTail C05.Proofs C05.ProofsTail C05.Driver C05.ProofsModules C05.ProofsCfi.
+From RM Require C09.Grammar.
 Import ListNotations.
 Open Scope Z_scope.
 
@@ -59,7 +60,10 @@ Lemma d_instr_valid_spec : forall mods x,
         | Some (b, _, Some s) =>
             let addr := i - b in
             match s_table s with
-            | Some t => match table_fill t addr with Some _ => true | None => false end
+            | Some t => match rm_get (C09.Grammar.t_funcs t) addr with
+                        | Some fn => negb (rle_empty (C09.Grammar.sf_name fn))
+                        | None => false
+                        end
             | None => (0 <? s_func_size s) && (s_func_lo s <=? addr) && (addr <? s_func_lo s + s_func_size s)
             end
         end).
@@ -68,7 +72,7 @@ Proof.
   destruct (sat_sub x 1 =? 0); [reflexivity|].
   destruct (mod_of mods (sat_sub x 1)) as [[[b sz] [s|]]|]; try reflexivity.
   destruct (s_table s) as [t|].
-  - destruct (table_fill t (sat_sub x 1 - b)); reflexivity.
+  - destruct (rm_get (C09.Grammar.t_funcs t) (sat_sub x 1 - b)); reflexivity.
   - destruct ((0 <? s_func_size s) && (s_func_lo s <=? sat_sub x 1 - b) && (sat_sub x 1 - b <? s_func_lo s + s_func_size s)); reflexivity.
 Qed.
 
@@ -293,3 +297,104 @@ Lemma trusts_pinned :
   lib_trust_context_frame = trust_code TContext /\
   arm64_strip_which_module_last = true.
 Proof. repeat split; reflexivity. Qed.
+
+(* ------------------------------------------------------------------ the acceptance test over C11's model of fill_symbol *)
+From RM Require C11.Model C11.Proofs2 C11.Proofs5.
+From RM Require Import C08.Proofs C05.ProofsFunction.
+
+(* symbol_provider.fill_symbol(module i, frame at x) through C11's model of SymbolFile::fill_symbol: [files i] = None is a
+   module the provider has no symbol file for (Err); otherwise Ok, with set_function(name, ..) called iff the model's o_func
+   is set; C11 keeps names abstract, [empty_name] says which of them is the empty string (a FUNC line may have no name) *)
+Definition c11_fill (q : profile) (empty_name : Z -> bool) (mods : list modspec) (files : Z -> option C11.Model.raw_file)
+    (i : Z) (x : Z) : option (option bool) :=
+  match nth_error mods (Z.to_nat i), files i with
+  | Some (b, _, _), Some rf =>
+      match C11.Model.symbolize q rf b x with
+      | Ret o => Some (match C11.Model.o_func o with Some (name, _, _) => Some (empty_name name) | None => None end)
+      | _ => None
+      end
+  | _, _ => None
+  end.
+
+Definition scan_function_ok (q : profile) (empty_name : Z -> bool) (mods : list modspec) (files : Z -> option C11.Model.raw_file) (f : frame) : Prop :=
+  f_trust f = TScan ->
+  exists i b s y, d_module_at mods (f_resume f - 1) = Some i /\ nth_error mods (Z.to_nat i) = Some (b, s, y) /\
+    b <= f_resume f - 1 < b + s /\
+    (files i = None \/
+     exists rf o name base ps, files i = Some rf /\ C11.Model.symbolize q rf b (f_resume f - 1) = Ret o /\
+       C11.Model.o_func o = Some (name, base, ps) /\ empty_name name = false /\ base <= f_resume f - 1 /\
+       ((exists fr, In fr (C11.Model.rf_funcs rf) /\ name = C11.Model.fr_name fr /\ base = b + C11.Model.fr_addr fr /\
+                    f_resume f - 1 < base + C11.Model.fr_size fr)
+        \/ (exists pb, In pb (C11.Model.rf_publics rf) /\ name = C11.Model.p_name pb /\ base = b + C11.Model.p_addr pb))).
+
+Lemma accepted_function : forall q empty_name mods files x,
+  mods_wf mods -> (forall i rf, files i = Some rf -> C11.Proofs2.wf_file rf) -> x - 1 < 2 ^ 64 ->
+  lib_isv_by_symbols (d_module_at mods) (c11_fill q empty_name mods files) x = true ->
+  exists i b s y, d_module_at mods (x - 1) = Some i /\ nth_error mods (Z.to_nat i) = Some (b, s, y) /\
+    b <= x - 1 < b + s /\
+    (files i = None \/
+     exists rf o name base ps, files i = Some rf /\ C11.Model.symbolize q rf b (x - 1) = Ret o /\
+       C11.Model.o_func o = Some (name, base, ps) /\ empty_name name = false /\ base <= x - 1 /\
+       ((exists fr, In fr (C11.Model.rf_funcs rf) /\ name = C11.Model.fr_name fr /\ base = b + C11.Model.fr_addr fr /\
+                    x - 1 < base + C11.Model.fr_size fr)
+        \/ (exists pb, In pb (C11.Model.rf_publics rf) /\ name = C11.Model.p_name pb /\ base = b + C11.Model.p_addr pb))).
+Proof.
+  intros q en mods files x Hw Hfiles Hx H.
+  apply isv_by_symbols_true in H. destruct H as [_ [i [Hm F]]].
+  destruct (module_at_covers mods (x - 1) i Hw Hm) as [b [s [y [Hn Hc]]]].
+  exists i, b, s, y. split; [exact Hm|]. split; [exact Hn|]. split; [exact Hc|].
+  unfold c11_fill in F. rewrite Hn in F.
+  destruct (files i) as [rf|] eqn:Ef; [|left; reflexivity].
+  right.
+  assert (Hb : 0 <= b).
+  { unfold mods_wf in Hw. rewrite Forall_forall in Hw. apply nth_error_In in Hn. apply Hw in Hn. cbn [fst snd] in Hn. lia. }
+  destruct (C11.Proofs5.func_sound q rf b (x - 1) (Hfiles i rf Ef) Hb Hx) as [o [Es [_ G]]].
+  rewrite Es in F.
+  destruct (C11.Model.o_func o) as [[[name base] ps]|] eqn:Eo.
+  - assert (En : en name = false) by (destruct F as [F|F]; [discriminate | inversion F; reflexivity]).
+    exists rf, o, name, base, ps. split; [reflexivity|]. split; [exact Es|]. split; [exact Eo|]. split; [exact En|].
+    destruct (G name base ps eq_refl) as [_ [Hle [[fr [Hin [Hcov [Hnm [Hbase _]]]]]|[pb [Hin [_ [Hnm [Hbase _]]]]]]]].
+    + split; [exact Hle|]. left. exists fr. split; [exact Hin|]. split; [exact Hnm|]. split; [lia|].
+      unfold C11.Model.func_covers in Hcov.
+      destruct (mk_range (C11.Model.fr_addr fr) (C11.Model.fr_size fr)) as [rg|] eqn:Er; [|discriminate].
+      pose proof (range_contains _ _ _ _ Er Hcov). lia.
+    + split; [exact Hle|]. right. exists pb. split; [exact Hin|]. split; [exact Hnm|]. lia.
+  - destruct F as [F|F]; discriminate.
+Qed.
+
+Lemma walk_resume_range :
+  forall p a os mem module_at max_module_addr cfi_walk instr_valid,
+    arch_ok a -> mem_wf mem ->
+    (forall callee gc fwd r v, cfi_walk callee gc fwd = Some (r, v) -> regs_wf a r) ->
+    forall fuel r v f0 rest, regs_wf a r ->
+      walk_stack current_code p a os mem module_at max_module_addr cfi_walk instr_valid fuel r v = Ret (f0 :: rest) ->
+      Forall (fun f => f_resume f < 2 ^ 64) rest.
+Proof.
+  intros p a os mem ma mm cw iv Ha Hm Hc fuel r v f0 rest Hr H. unfold walk_stack in H.
+  destruct (mem_ok mem).
+  - destruct (walk current_code p a os mem ma mm cw iv fuel (from_context r v TContext) None) as [l| |t|] eqn:E;
+      cbn [obind] in H; try discriminate. inversion H; subst; clear H.
+    assert (Hcw : frame_wf a (from_context r v TContext)) by exact Hr.
+    destruct (walk_shape current_code p a os mem ma mm cw iv eq_refl Ha Hm Hc _ _ _ _ Hcw E) as [H1 _].
+    eapply Forall_impl; [|exact H1]. intros f [Hwf [[_ [_ [Hres _]]] _]].
+    destruct Hwf as [Hip _]. rewrite Hres. exact (proj2 (slot_lt_64 a _ Ha Hip)).
+  - inversion H; subst. constructor.
+Qed.
+
+Lemma walk_scan_functions :
+  forall p q empty_name a os mem max_module_addr cfi_walk (mods : list modspec) (files : Z -> option C11.Model.raw_file),
+    arch_ok a -> mem_wf mem ->
+    (forall callee gc fwd r v, cfi_walk callee gc fwd = Some (r, v) -> regs_wf a r) ->
+    mods_wf mods -> (forall i rf, files i = Some rf -> C11.Proofs2.wf_file rf) ->
+    forall fuel r v f0 rest, regs_wf a r ->
+      walk_stack current_code p a os mem (d_module_at mods) max_module_addr cfi_walk
+                 (lib_isv_by_symbols (d_module_at mods) (c11_fill q empty_name mods files)) fuel r v = Ret (f0 :: rest) ->
+      Forall (scan_function_ok q empty_name mods files) rest.
+Proof.
+  intros p q en a os mem mm cw mods files Ha Hm Hc Hw Hfiles fuel r v f0 rest Hr H.
+  pose proof (walk_resume_range p a os mem _ mm cw _ Ha Hm Hc fuel r v f0 rest Hr H) as R.
+  pose proof (stack_scan_accepts _ _ _ _ _ _ _ _ _ _ _ _ _ _ H) as S.
+  rewrite Forall_forall in *. intros f Hin T.
+  destruct (S f Hin T) as [_ Hiv].
+  apply (accepted_function q en mods files (f_resume f) Hw Hfiles); [pose proof (R f Hin); lia | exact Hiv].
+Qed.
